@@ -249,7 +249,33 @@ def reply_sequences(ctx):
     return scs, bad
 
 
+def class_by_first_digit(ctx):
+    """Every negative code the parser accepts (x in 4,5; y in 0..5; z in 0..9), in three reply shapes, as the answer to a command: the error
+    carries that code and is transient for 4yz, permanent for 5yz - nothing but the first digit decides."""
+    from smtp import step, run_scenarios
+    scs = []
+    codes = [x * 100 + y * 10 + z for x in (4, 5) for y in range(6) for z in range(10)]
+    if ctx.tier == "quick":
+        codes = [c for c in codes if c % 10 in (0, 1, 2) or c in (455, 554, 555, 535, 534, 454)]
+    for code in codes:
+        for shape, fl in ((b"%d text\r\n", "sync"), (b"%d-first\r\n%d last\r\n", "tokio"), (b"%d\r\n", "sync"), (b"%d 5.0.0 or 4.0.0 text\r\n", "tokio")):
+            rep = shape % ((code,) * shape.count(b"%d"))
+            scs.append({"id": len(scs), "flavor": fl, "timeout_ms": 1500, "servers": [[step("none", b"220 hi\r\n"), step("line", b"250 srv\r\n"), step("line", rep), step("line", b"221 bye\r\n")]],
+                        "server_cap_ms": 2000, "code": code, "ops": [{"op": "connect", "hello": hx(b"c15.test")}, {"op": "rset"}]})
+    bad = []
+    for sc, r in zip(scs, run_scenarios(scs)):
+        ctx.count(); ctx.cls("class-by-first-digit/" + sc["flavor"])
+        res = str((r.get("results") or ["", ""])[1]) if isinstance(r.get("results"), list) else str(r.get("results", r.get("error")))
+        want = "err,%s,%d," % ("transient" if sc["code"] < 500 else "permanent", sc["code"])
+        if not res.startswith(want):
+            bad.append((sc, "a command answered %d is reported as %s (expected %s...)" % (sc["code"], res[:60], want)))
+    ctx.cov["oracle"]["class_by_first_digit"] = {"scenarios": len(scs), "failures": len(bad)}
+    if bad:
+        ctx.violation({"kind": "oracle", "entry": "error class of a negative reply", "what": bad[0][1], "scenario": {k: bad[0][0][k] for k in ("flavor", "servers", "ops")}, "failures": len(bad)})
+
+
 def run(ctx):
+    class_by_first_digit(ctx)
     known = {e["class"]: e for e in load_known("C15")}
     tscs, tbad = truncation(ctx)
     qscs, qbad = reply_sequences(ctx)
